@@ -47,6 +47,7 @@ type Ctx struct {
 	Thorough bool
 	WantDesc bool
 	desc     []string
+	clock    int
 	// PanicOracle is the oracle id a panic escaping a library call is attributed to.
 	PanicOracle string
 	// SpinOracle is the oracle id a detected busy-wait is attributed to.
@@ -156,4 +157,60 @@ func PropOf(oracle string) string {
 		return oracle[:i]
 	}
 	return oracle
+}
+
+// Tick returns the next value of the harness's logical clock: a strict total
+// order over harness-visible events (only one task runs at a time, so the
+// order is consistent with the order in which the events really happened).
+func (c *Ctx) Tick() int {
+	c.clock++
+	return c.clock
+}
+
+// Write is one write to a single-cell object with its invoke/return stamps.
+type Write struct {
+	Inv, Ret int // Ret == 0 while the write is in flight
+	Val      any
+}
+
+// CellHistory records the writes to a cell so that "which values could a
+// reader have seen during [inv, ret]" can be decided soundly.
+type CellHistory struct {
+	Writes []*Write
+}
+
+// Begin records the invocation of a write.
+func (h *CellHistory) Begin(c *Ctx, val any) *Write {
+	w := &Write{Inv: c.Tick(), Val: val}
+	h.Writes = append(h.Writes, w)
+	return w
+}
+
+// End records the return of a write.
+func (w *Write) End(c *Ctx) { w.Ret = c.Tick() }
+
+// Possible reports whether the cell may have held the value written by w at
+// some moment of the interval [inv, ret]: w must have been invoked before ret
+// and not definitely overwritten (by a write for which overwrites(o) is true,
+// wholly after w and wholly before the earliest such moment).
+func (h *CellHistory) Possible(w *Write, inv, ret int, overwrites func(o *Write) bool) bool {
+	if w.Inv > ret {
+		return false
+	}
+	t0 := inv
+	if w.Inv > t0 {
+		t0 = w.Inv
+	}
+	if w.Ret == 0 {
+		return true
+	}
+	for _, o := range h.Writes {
+		if o == w || o.Ret == 0 {
+			continue
+		}
+		if o.Inv > w.Ret && o.Ret < t0 && (overwrites == nil || overwrites(o)) {
+			return false
+		}
+	}
+	return true
 }
